@@ -72,7 +72,8 @@ def install_contracts(record: Dict[str, Any]):
 
     from ariadne_codegen import utils
 
-    pyd = set(utils.PYDANTIC_RESERVED_FIELD_NAMES)
+    import pydantic
+    pyd = {a for a in dir(pydantic.BaseModel) if not a.startswith("_")}  # the harness' own list, not the repository's
     orig_process = utils.process_name
     orig_snake = utils.str_to_snake_case
 
